@@ -2,6 +2,7 @@
 import os
 import shutil
 import subprocess
+import re
 import sys
 import time
 
@@ -27,7 +28,7 @@ SYN = ["ber", "ber", "uper", "oer", "xer"]
 
 def strategy(mod, t, cfg, feats):
     edit = st.tuples(st.sampled_from(["trunc", "flip", "set", "ins", "del", "len", "tag", "splice", "rand", "xmltag", "eoc",
-                                      "eoc", "tail"]),
+                                      "eoc", "tail", "xmlnum", "xmlnum"]),
                      st.integers(0, 1 << 20), st.integers(0, 255))
     return st.tuples(gen.values(mod, t, cfg), st.sampled_from(SYN), st.lists(st.integers(0, 1 << 16), max_size=20),
                      st.lists(edit, min_size=0, max_size=4), gen.values(mod, t, cfg))
@@ -147,6 +148,17 @@ def mutate(enc, edits, other_enc, syn):
             b = b[:pos] + bytearray(other_enc[opos:])
         elif kind == "rand":
             b = bytearray((c * 7 + i * (a | 1)) & 0xff for i in range(a % 64))
+        elif kind == "xmlnum" and syn == "xer" and n:
+            # replace the text of one element by another lexical form the XER decoders know (or nearly know):
+            # the xx:xx:xx octet form of INTEGER, signs, leading zeros, white space, exponents, entity references
+            spots = [m for m in re.finditer(rb">([^<>]{1,40})<", bytes(b))]
+            if spots:
+                m = spots[a % len(spots)]
+                forms = [b"01:02:03", b"0A", b"00:" * (1 + c % 40) + b"7F", b"FF:" * (8 + c % 30) + b"FF", b"+5", b"-0", b" 7 ",
+                         b"007", b"1e3", b"1.5E-2", b"&#x31;", b"&#49;&#50;", b"12:", b":12", b"1:2", b"0x1F", b"<true/>", b"-",
+                         b"9" * (19 + c % 30), b"AB" * (1 + c % 70)]
+                rep = forms[(a >> 8) % len(forms)]
+                b[m.start(1):m.end(1)] = rep
         elif kind == "xmltag" and syn == "xer" and n:
             i = bytes(b).find(b"<", a % n)
             if i >= 0 and i + 2 < n:
